@@ -165,7 +165,7 @@ func genConcCase(rng *simrt.Rng, o *ConcOpts) *ConcCase {
 			}
 		}
 	}
-	if o.SweepCheck && rng.Intn(3) == 0 {
+	if (o.SweepCheck || o.Duel) && rng.Intn(3) == 0 {
 		sweepDuel(rng, cc, pg)
 	}
 	return cc
@@ -203,6 +203,10 @@ func sweepDuel(rng *simrt.Rng, cc *ConcCase, pg *OpGen) {
 	b := []Op{{Kind: "advance", D: 1 + int64(rng.Intn(int(2*tickSlack)))}, {Kind: "cleanup"}}
 	if rng.Intn(2) == 0 {
 		b = append(b, Op{Kind: "advance", D: tickSlack + int64(rng.Intn(int(tickSlack)))}, Op{Kind: "cleanup"})
+	}
+	if cfg.bounded() && rng.Intn(2) == 0 {
+		// lowering the maximum to zero afterwards flushes everything the policy knows about
+		b = append(b, Op{Kind: "setmax", D: 0})
 	}
 	cc.Tasks = [][]Op{a, b}
 	if rng.Intn(2) == 0 {
